@@ -244,6 +244,10 @@ def py_pbvi(m, bs, eps, H, aord, edges=None, rare=False):
     N, K, NO = m["N"], m["K"], m["NO"]
     g = F(m["GN"], m["GD"])
     na = [s for s in range(N) if s not in absall(m)]
+    if rare and m.get("rare"):
+        # a state that leaves with probability 1e-9 does not self-loop with probability 1: it is not implicitly
+        # absorbing in the real arrays even if the integer rows (without the rare entries) look like it
+        na = sorted(set(na) | {s_ for s_, _a, _n in m["rare"] if not m["abs"][s_]})
     T = [[[F(m["P"][s][a][n], m["PD"]) if s in na else F(0) for n in range(N)] for a in range(K)] for s in range(N)]
     Ob = [[[F(m["O"][a][n][o], m["OD"]) for o in range(NO)] for n in range(N)] for a in range(K)]
     R = [[rsa(m, s, a) if s in na else F(0) for a in range(K)] for s in range(N)]
